@@ -1,0 +1,10 @@
+//go:build verif
+// +build verif
+
+package env
+
+// VerifParent exposes the parent scope to the verification harness (read-only).
+func (e *Env) VerifParent() *Env { return e.parent }
+
+// VerifHasExternalLookup reports whether an external lookup is installed.
+func (e *Env) VerifHasExternalLookup() bool { return e.externalLookup != nil }
